@@ -156,4 +156,32 @@ example : ((run demo [.agg .rollup ["k"] [⟨.sum, "v", none⟩, ⟨.countStar, 
 example : ((run demo [.pivot ["k"] "s" none [⟨.sum, "v", none⟩]]).toOption.map fun d => (d.names, d.rows)) =
     some (["k", "x", "y", "z"], [[.int 1, .int 5, .null, .int 7], [.int 2, .null, .null, .null]]) := by decide +kernel
 
+-- OBLIGATION: PysparklingVerif.C15.rows_source_consistent
+/-- createDataFrame over `Row` objects with differing sets (or orders) of fields: the frame is consistent, its columns
+are the fields in order of first appearance, every value sits under its own name and a field a row lacks is null -/
+theorem rows_source_consistent (rows : List (List (String × SV))) :
+    (createFromRows rows).Consistent ∧
+    (createFromRows rows).names = unionNames rows ∧
+    (createFromRows rows).rows.length = rows.length ∧
+    (∀ (i : Nat) (r : List (String × SV)), rows[i]? = some r →
+      ∀ (j : Nat) (n : String), (unionNames rows)[j]? = some n →
+        ((createFromRows rows).rows[i]?.bind (·[j]?)) = some ((r.lookup n).getD .null)) := by
+  refine ⟨?_, rfl, by simp [createFromRows], ?_⟩
+  · intro r hr
+    simp only [createFromRows, List.mem_map] at hr
+    obtain ⟨_, _, rfl⟩ := hr
+    simp [createFromRows]
+  · intro i r hi j n hj
+    simp [createFromRows, List.getElem?_map, hi, hj]
+
+-- OBLIGATION: PysparklingVerif.C15.rows_source_old_code
+/-- the code as it was: the same input yields a frame that violates the invariant (first row: two values, three columns) -/
+theorem rows_source_old_code :
+    ¬ (createFromRowsOld [[("a", .int 1), ("b", .null)], [("a", .null), ("b", .str "x"), ("c", .dbl 2)]]).Consistent ∧
+    (createFromRows [[("a", .int 1), ("b", .null)], [("a", .null), ("b", .str "x"), ("c", .dbl 2)]]).rows =
+      [[.int 1, .null, .null], [.null, .str "x", .dbl 2]] := by
+  constructor
+  · decide
+  · decide
+
 end PysparklingVerif.C15
